@@ -12,7 +12,7 @@ def cli_case(draw):
     paired = draw(st.booleans())
     qspec = draw(st.sampled_from(["one", "two", "none"]))
     cf = draw(st.sampled_from([0, 3, 10, 20])) if qspec == "two" else 0
-    cb = draw(st.sampled_from([1, 3, 10, 15, 20, 30]))
+    cb = draw(st.sampled_from([1, 3, 10, 15, 20, 30] + ([0, 0] if cf else [])))  # "-q 15,0": 5' end only
     nextseq = draw(st.one_of(st.none(), st.sampled_from([5, 10, 20, 0])))
     if qspec == "none" and nextseq is None:
         nextseq = 10
